@@ -682,7 +682,9 @@ func (g *valGen) val(ts *TypeSpec, depth int) Val {
 		n := g.count()
 		out := Val{M: make([]KV, 0, n)}
 		nilKey := false
-		for i := 0; i < n && g.budget > 0; i++ {
+		// keys that repeat are drawn again: the map has n entries whenever the key type has that many
+		// values (sizes matter: a Go map is mid-growth only at particular lengths)
+		for tries := 0; len(out.M) < n && tries < 3*n+8 && g.budget > 0; tries++ {
 			k := g.val(ts.Key, depth+1)
 			if ts.Key.Kind == KStruct && k.Nil {
 				if nilKey {
